@@ -68,7 +68,8 @@ def r1_enum(tier, shard, nshards, seed):
     for nseq in range(2, 21, 2):
         for F in (0, 1e-6, float(rs.uniform(0.01, 0.95))):
             if n % nshards == shard:
-                yield dict(nseq=nseq, F=F)
+                # 'warm': the shared partition cache is first used for another ploidy (as from_phi_inbreeding does for polyploids)
+                yield dict(nseq=nseq, F=F, warm=[None, 4, 1, 3][n % 4])
             n += 1
 
 
@@ -78,6 +79,10 @@ def r1(case, rec):
     enumeration oracle, and are continuous as F -> 0."""
     nseq, F = case['nseq'], case['F']
     nind = nseq // 2
+    if case.get('warm'):
+        for x in range(0, case['warm'] * nind + 1):
+            dadi.Numerics.cached_part(x, nind, 0, case['warm'])
+            dadi.Numerics.cached_part_precalc(x, nind, 0, case['warm'])
     with dadi_call('partitions_and_probabilities(genotype)'):
         parts_all, probs_all = LP.partitions_and_probabilities(nseq, 'genotype', F)
     require(len(parts_all) == nseq + 1, 'genotype partitions cover %d allele counts, expected %d' % (len(parts_all), nseq + 1))
